@@ -58,7 +58,7 @@ def run_case(exe, entry, d):
     kind, sec, nsec, exp = d
     t0 = time.time()
     try:
-        r = subprocess.run([exe, entry, kind, str(sec), str(nsec)], capture_output=True, text=True, timeout=5)
+        r = subprocess.run([exe, entry, kind, str(sec), str(nsec)], capture_output=True, text=True, timeout=15)
         rc, out = r.returncode, r.stdout.strip()
     except subprocess.TimeoutExpired:
         rc, out = "hang", ""
@@ -68,7 +68,7 @@ def run_case(exe, entry, d):
 def judge(c):
     exp = c["expect"]
     if c["rc"] == "hang":
-        return "hang: no return within 5 s"
+        return "hang: no return within 15 s"
     if c["rc"] != 0:
         return "crash: exit status %s" % c["rc"]
     m = re.match(r"(\w+) elapsed_ms=([\d.]+) ret=(-?\d+)", c["out"])
@@ -78,7 +78,7 @@ def judge(c):
     if exp == "expired":
         if cls != "TIMEOUT":
             return "expired deadline did not produce the timeout result (%s)" % c["out"]
-        if ms > 1000:
+        if ms > 3000:
             return "expired deadline not reported promptly (%.0f ms)" % ms
     elif exp == "none":
         if cls != "EVENT":
